@@ -1082,6 +1082,42 @@ fn parse_edge_list(input: &[u8], dst: &mut Vec<isize>, line_no: usize) -> io::Re
     Ok(())
 }
 
+#[cfg(feature = "verif-hooks")]
+#[allow(missing_docs)]
+pub mod verif_hooks {
+    use std::io;
+    pub fn read_unescape(input: impl io::BufRead) -> io::Result<u8> {
+        super::read_unescape(input)
+    }
+    pub fn decode_7bit(input: impl io::BufRead) -> io::Result<usize> {
+        super::decode_7bit(input)
+    }
+    pub fn trim(s: &[u8]) -> &[u8] {
+        super::trim(s)
+    }
+    pub fn parse_str_list(input: &[u8], capacity: usize) -> Vec<String> {
+        super::parse_str_list(input, capacity)
+    }
+    pub fn parse_u32(input: &[u8], line_no: usize) -> io::Result<(&[u8], u32)> {
+        super::parse_u32(input, line_no)
+    }
+    pub fn parse_usize(input: &[u8], line_no: usize) -> io::Result<(&[u8], usize)> {
+        super::parse_usize(input, line_no)
+    }
+    pub fn parse_single_u32(input: &[u8], line_no: usize) -> io::Result<u32> {
+        super::parse_single_u32(input, line_no)
+    }
+    pub fn parse_single_usize(input: &[u8], line_no: usize) -> io::Result<usize> {
+        super::parse_single_usize(input, line_no)
+    }
+    pub fn parse_u32_list(input: &[u8], capacity: usize, line_no: usize) -> io::Result<Vec<u32>> {
+        super::parse_u32_list(input, capacity, line_no)
+    }
+    pub fn parse_edge_list(input: &[u8], dst: &mut Vec<isize>, line_no: usize) -> io::Result<()> {
+        super::parse_edge_list(input, dst, line_no)
+    }
+}
+
 #[cfg(test)]
 mod test {
     use super::*;
